@@ -190,7 +190,12 @@ func (c *XAConn) createNewTxOnExecIfNeed(ctx context.Context, f func() (types.Ex
 			}
 		}
 		if recoverErr != nil {
-			// the statement did not complete: report it instead of returning a nil result and a nil error
+			// the statement did not complete: end and roll back the XA branch (the error path above has
+			// done that already for ordinary errors) and report it instead of returning a nil result
+			// and a nil error
+			if rollbackErr := c.Rollback(ctx); rollbackErr != nil {
+				log.Errorf("failed to rollback xa branch of :%s, err:%v", c.txCtx.XID, rollbackErr)
+			}
 			result, err = nil, fmt.Errorf("xa exec panic: %v", recoverErr)
 		}
 	}()
